@@ -240,7 +240,7 @@ def gap_character_stream(ctx, count):
 def run(ctx):
     gap_character_stream(ctx, 400 if ctx.thorough else 60)
     long_line_probe(ctx)
-    n = 6 if ctx.thorough else 1
+    n = 12 if ctx.thorough else 1
     check(ctx, "buffers", [gen(ctx.rng) for _ in range(120 * n)])
     memory_probe(ctx, 300 if ctx.thorough else 120)
 
